@@ -62,7 +62,9 @@ func execStop(input string) Result {
 	if sp.StopAt != nil {
 		sp.Expect = 0
 	}
-	sp.TimeoutMs = 25000
+	// Stop() waits for fetches in progress; with the rate limiter on a worker can sit out a 403/429 penalty
+	// (5 s doubling, capped at 30 s) before its fetch even starts: "bounded" is then tens of seconds
+	sp.TimeoutMs = 90000
 	if sp.MaxHops > 0 && sp.StopAt == nil {
 		// with outlinks the crawl does not end by itself within the budget: stop it somewhere
 		sp.StopAt = &Trigger{"fin.notified", 2}
